@@ -329,7 +329,7 @@ func indexSafe(fs *Facts, in ssa.Instruction) (string, bool) {
 			return fmt.Sprintf("index in [%d,%d], length at least %d", lo, hi, minLen), true
 		}
 		// relational upper bound: a guard compared the index with the length
-		if t, off, isC, ok := termOf(I); ok && !isC && lo >= 0 {
+		if t, off, isC, ok := termOf(I); ok && !isC && lo >= 0 && s.noWrap(t, off) {
 			if _, isSl := X.Type().Underlying().(*types.Slice); isSl || isStringType(X.Type()) {
 				if d := s.diffHi(t, term{v: strip(X), isLen: true}); d != math.MaxInt64 && sat(d, off) <= -1 {
 					return fmt.Sprintf("index at least %d and a dominating guard bounds it below the length", lo), true
